@@ -178,14 +178,13 @@ FLOWS += [
     Flow("k_flow_ProtectionDescriptor_parse", "_blob.py", "ProtectionDescriptor.parse", props=_PP),
     Flow("k_flow_ProtectionDescriptor_get_target_sd", "_blob.py", "ProtectionDescriptor.get_target_sd", props=("C05",)),
     Flow("k_flow_SIDDescriptor_get_target_sd", "_blob.py", "SIDDescriptor.get_target_sd", props=("C05",)),
-    # regenerated but NOT tied: a callee advances / appends to an ARGUMENT (reader, writer), which Prelude/PyAst.v cannot express
-    # (w_call / w_meth only give the receiver back); listed without props so that no property depends on them
-    Flow("k_flow_EncryptedContentInfo_unpack", "_pkcs7.py", "EncryptedContentInfo.unpack"),
-    Flow("k_flow_KEKRecipientInfo_unpack", "_pkcs7.py", "KEKRecipientInfo.unpack"),
-    Flow("k_flow_EnvelopedData_unpack", "_pkcs7.py", "EnvelopedData.unpack"),
-    Flow("k_flow_EncryptedContentInfo_pack", "_pkcs7.py", "EncryptedContentInfo.pack"),
-    Flow("k_flow_KEKIdentifier_pack", "_pkcs7.py", "KEKIdentifier.pack"),
-    Flow("k_flow_KEKRecipientInfo_pack", "_pkcs7.py", "KEKRecipientInfo.pack"),
-    Flow("k_flow_EnvelopedData_pack", "_pkcs7.py", "EnvelopedData.pack"),
-    Flow("k_flow_DPAPINGBlob_pack", "_blob.py", "DPAPINGBlob.pack"),
+    # a callee advances / appends to an ARGUMENT (reader, writer): run by Prelude/PyAstMut.v (mw_call_mut / mw_meth_mut)
+    Flow("k_flow_EncryptedContentInfo_unpack", "_pkcs7.py", "EncryptedContentInfo.unpack", props=_PU),
+    Flow("k_flow_KEKRecipientInfo_unpack", "_pkcs7.py", "KEKRecipientInfo.unpack", props=_PU),
+    Flow("k_flow_EnvelopedData_unpack", "_pkcs7.py", "EnvelopedData.unpack", props=_PU),
+    Flow("k_flow_EncryptedContentInfo_pack", "_pkcs7.py", "EncryptedContentInfo.pack", props=_PP),
+    Flow("k_flow_KEKIdentifier_pack", "_pkcs7.py", "KEKIdentifier.pack", props=_PP),
+    Flow("k_flow_KEKRecipientInfo_pack", "_pkcs7.py", "KEKRecipientInfo.pack", props=_PP),
+    Flow("k_flow_EnvelopedData_pack", "_pkcs7.py", "EnvelopedData.pack", props=_PP),
+    Flow("k_flow_DPAPINGBlob_pack", "_blob.py", "DPAPINGBlob.pack", props=_PP),
 ]
